@@ -26,6 +26,16 @@ open Lcapy.Fourier
     larger values: later branches, reachable only through an alternative spelling such as `t*sign(t)`, or dead) -/
 def lookup (k : Kind) (alt : Nat) : Option GEntry := (Gen.table.filter (fun e => e.kind == k))[alt]?
 
+/-- the similarity/shift step of `term` applied to the table value `base` of `K(t)`, with the exponents the source
+    actually uses (`Gen.similarity`, `Gen.shiftPhase`, read from the code by the translator):
+      `result = self.term(expr2, t, f*scale^se) / abs(scale)^re ;  result *= exp(I*2*pi * v * scale^pe * shift^qe)` -/
+def simShift (inv : Bool) (a b : Rat) (base : E) : Option E :=
+  match Gen.similarity, Gen.shiftPhase with
+  | some (se, re), some (useSf, pe, qe) =>
+      let vs : Rat := if useSf && inv then -1 else 1
+      some (smulE (CQ.ofRat (1 / zpow (rabs a) re)) (modE (vs * zpow a pe * zpow b qe) (scaleE (zpow a se) base)))
+  | _, _ => none
+
 /-- result of `self.term(K(a t + b), t, f)` (unit constant, no complex-exponential factor) -/
 def otherTerm (pi : Rat) (inv : Bool) (alt : Nat) (k : Kind) (a b : Rat) : Option E :=
   let sg : Rat := if inv then -1 else 1
@@ -68,8 +78,7 @@ def otherTerm (pi : Rat) (inv : Bool) (alt : Nat) (k : Kind) (a b : Rat) : Optio
       -- 1/(a t)² = (1/a²)·(1/t²); a shifted argument has no function to drive `similarity_shift`: SymPy
       if b == 0 then (lookup .inv2 alt).map fun e => smulE (CQ.ofRat (1 / (a * a))) (entryE pi inv e.terms) else none
   | k =>
-      (lookup k alt).map fun e =>
-        smulE (CQ.ofRat (1 / rabs a)) (modE (sg * b / a) (scaleE (1 / a) (entryE pi inv e.terms)))
+      (lookup k alt).bind fun e => simShift inv a b (entryE pi inv e.terms)
 
 /-- `const · e^{j2πθt} · K(a t + b)` through `term` -/
 def modelTerm (pi : Rat) (inv : Bool) (alt : Nat) (t : Term) : Option E :=
